@@ -122,7 +122,7 @@ theorem genPtsImporter_eq (lines : List PLine) (io : Bool) : genPtsImporter line
 /-- `ljson_importer`: the parser that is called is the entry of the live table for the file's version -/
 theorem genLjsonImporter_eq (table : List (Nat × String)) (doc : Json) :
     genLjsonImporter table doc = ljsonDispatchSpec table doc := by
-  unfold genLjsonImporter ljsonDispatchSpec parserLookup
+  unfold genLjsonImporter ljsonDispatchSpec parserLookup callParser
   dsimp only
   cases hv : doc.get .version with
   | none => simp
